@@ -196,3 +196,158 @@ def eval_where(st, row, bound, distinct=None):
         else:
             out = False if (out is False or v is False) else (True if (out is True and v is True) else None)
     return out
+
+
+# ------------------------------------------------------------------ scalar queries over a tiny in-memory database
+class SqlUnsupported(Exception):
+    pass
+
+
+def _tokens(text):
+    out = []
+    for m in re.finditer(r"\s*(?:(\d+)|'([^']*)'|([A-Za-z_][A-Za-z_0-9]*)|(<>|!=|<=|>=|[(),=*<>?]))", text):
+        if m.group(1) is not None:
+            out.append(("num", int(m.group(1))))
+        elif m.group(2) is not None:
+            out.append(("str", m.group(2)))
+        elif m.group(3) is not None:
+            out.append(("id", m.group(3)))
+        else:
+            out.append(("op", m.group(4)))
+    if "".join(t for t in re.sub(r"\s+", "", text)) and sum(1 for _ in out) == 0:
+        raise SqlUnsupported(text)
+    return out
+
+
+def query(db, text, params=()):
+    """rows of `SELECT e1, e2 ... [FROM table [WHERE col = literal | ?]]` over db = {table: [row dict]}; expressions are
+    numbers, strings, NULL, columns, scalar subqueries in parentheses, COALESCE / IFNULL, max / min (an aggregate over the
+    FROM table with one argument, SQLite's scalar max / min with several).  Anything else raises SqlUnsupported."""
+    toks = _tokens(text.strip().rstrip(";"))
+    params = list(params)
+    pos = [0]
+
+    def peek():
+        return toks[pos[0]] if pos[0] < len(toks) else (None, None)
+
+    def take(kind=None, val=None):
+        t = peek()
+        if t[0] is None or (kind and t[0] != kind) or (val is not None and str(t[1]).upper() != val):
+            raise SqlUnsupported("at token %d of %r" % (pos[0], text))
+        pos[0] += 1
+        return t
+
+    def kw(word):
+        t = peek()
+        return t[0] == "id" and t[1].upper() == word
+
+    def select():
+        take("id", "SELECT")
+        exprs = [expr_ast()]
+        while peek() == ("op", ","):
+            take()
+            exprs.append(expr_ast())
+        table, cond = None, None
+        if kw("FROM"):
+            take()
+            table = take("id")[1]
+            if kw("WHERE"):
+                take()
+                col = take("id")[1]
+                take("op", "=")
+                t = take()
+                if t == ("op", "?"):
+                    if not params:
+                        raise SqlUnsupported("placeholder without a parameter")
+                    cond = (col, params.pop(0))
+                elif t[0] in ("num", "str"):
+                    cond = (col, t[1])
+                else:
+                    raise SqlUnsupported("WHERE operand")
+        return ("select", exprs, table, cond)
+
+    def expr_ast():
+        t = peek()
+        if t == ("op", "("):
+            take()
+            if kw("SELECT"):
+                s_ = select()
+                take("op", ")")
+                return ("sub", s_)
+            e_ = expr_ast()
+            take("op", ")")
+            return e_
+        if t[0] == "num" or t[0] == "str":
+            take()
+            return ("lit", t[1])
+        if t == ("op", "?"):
+            take()
+            if not params:
+                raise SqlUnsupported("placeholder without a parameter")
+            return ("lit", params.pop(0))
+        if t[0] == "id":
+            take()
+            if t[1].upper() == "NULL":
+                return ("lit", None)
+            if peek() == ("op", "("):
+                take()
+                args = []
+                if peek() == ("op", "*"):
+                    take()
+                    args.append(("star",))
+                elif peek() != ("op", ")"):
+                    args.append(expr_ast())
+                    while peek() == ("op", ","):
+                        take()
+                        args.append(expr_ast())
+                take("op", ")")
+                return ("call", t[1].lower(), args)
+            return ("col", t[1])
+        raise SqlUnsupported("expression at token %d of %r" % (pos[0], text))
+
+    def has_agg(e):
+        return e[0] == "call" and ((e[1] in ("max", "min") and len(e[2]) == 1) or e[1] == "count" or any(has_agg(a) for a in e[2]))
+
+    def ev(e, row, rows):
+        if e[0] == "lit":
+            return e[1]
+        if e[0] == "col":
+            if row is None or e[1] not in row:
+                raise SqlUnsupported("column %s" % e[1])
+            return row[e[1]]
+        if e[0] == "sub":
+            r = run(e[1])
+            return r[0][0] if r else None
+        if e[0] == "call":
+            f, args = e[1], e[2]
+            if f in ("max", "min") and len(args) == 1:
+                vals = [v for v in (ev(args[0], r_, None) for r_ in rows or []) if v is not None]
+                return (max(vals) if f == "max" else min(vals)) if vals else None
+            if f == "count":
+                return len(rows or [])
+            vs = [ev(a, row, rows) for a in args]
+            if f in ("max", "min"):
+                if any(v is None for v in vs):
+                    return None        # SQLite's scalar max / min give NULL as soon as one argument is NULL
+                return max(vs) if f == "max" else min(vs)
+            if f in ("coalesce", "ifnull"):
+                for v in vs:
+                    if v is not None:
+                        return v
+                return None
+        raise SqlUnsupported(str(e))
+
+    def run(s_):
+        _k, exprs, table, cond = s_
+        if table is None:
+            return [tuple(ev(e, None, None) for e in exprs)]
+        if table not in db:
+            raise SqlUnsupported("table %s" % table)
+        rows = [r for r in db[table] if cond is None or r.get(cond[0]) == cond[1]]
+        if any(has_agg(e) for e in exprs):
+            return [tuple(ev(e, None, rows) for e in exprs)]
+        return [tuple(ev(e, r, rows) for e in exprs) for r in rows]
+    s0 = select()
+    if pos[0] != len(toks):
+        raise SqlUnsupported("trailing tokens in %r" % text)
+    return run(s0)
